@@ -407,6 +407,10 @@ RULES = [
     Rule('C06.F2', 'literals lower to an exact integer ratio or the negative-zero helper; sign folds only for -0 and -<int>', f2_literal_lowering, 14, 'F'),
     Rule('C06.S1', 'decimal and hexadecimal converters handle every alternative their patterns admit; shared exact formula', s1_sibling_converters, 16, 'S'),
     Rule('C06.T1', 'as_rational formulas and argument order of rational / digits / hexfloat', t1_value_formulas, 15, 'T'),
+    # "under any other context ... rounded once": a literal that is not a dyadic rational (0.1, rational(1, 15)) reaches the
+    # format through `mpfr_call`, whose single-rounding structure is decided once, in engine_rules
+    Rule('C06.F4', 'a non-dyadic literal is rounded once: the round-to-odd wrapper keeps the digits the final rounding needs, for a precision and for a digit position (= C02.F1)',
+         lambda ctx: __import__('sa.props.engine_rules', fromlist=['f1_round_to_odd']).f1_round_to_odd(ctx), 12, 'F'),
 ]
 
 from ..selftest import Mutant  # noqa: E402
